@@ -155,6 +155,8 @@ func (c03) invalidate(r *core.Rand, v gen.VText) [][2]string {
 		{"epoch-empty", ":" + plain},
 		{"epoch-negative", "-" + r.Str("123456789", 1) + ":" + plain},
 		{"epoch-oversized", r.Str("123456789", 1) + r.Str(gen.Digits, r.Range(20, 30)) + ":" + plain},
+		{"epoch-oversized", r.Str("123456789", 1) + r.Str(gen.Digits, 19) + ":" + plain},
+		{"epoch-oversized", r.Pick([]string{"9223372036854775808", "9223372036854775809", "18446744073709551615", "18446744073709551616", "18446744073709551617", "09223372036854775808", "99999999999999999999"}) + ":" + plain},
 		{"nothing-after-colon", r.Str(gen.Digits, r.Range(1, 3)) + ":" + r.Pick([]string{"", " ", "\n"})},
 	}
 	if len(v.Text) >= 2 {
